@@ -23,6 +23,16 @@ def _val(v):
         return repr(v)
 
 
+def _is_pk_attr(obj, name):
+    return any(a.name == name for a in type(obj)._pk_attrs_)
+
+
+def _no_columns(obj, name):
+    """the column-less side of a one-to-one relationship: loading 'no partner' stores None without a db value"""
+    a = getattr(type(obj), name, None)
+    return a is not None and not getattr(a, 'columns', None)
+
+
 def snapshot(cache):
     """Everything the property calls 'observable part of the session' plus the pending-write bookkeeping."""
     if cache is None or not cache.is_alive:
@@ -30,8 +40,10 @@ def snapshot(cache):
     objs = {}
     for obj in cache.objects:
         vals = obj._vals_
-        objs[id(obj)] = (obj, obj._status_, obj._wbits_, obj._save_pos_,
-                         dict((a.name, _val(v)) for a, v in vals.items()) if vals is not None else None)
+        d = dict((a.name, _val(v)) for a, v in vals.items()) if vals is not None else None
+        if d is not None and obj._dbvals_ is not None:
+            d['<dbvals>'] = frozenset(a.name for a in obj._dbvals_)
+        objs[id(obj)] = (obj, obj._status_, obj._wbits_, obj._save_pos_, d)
     indexes = {}
     for key, idx in cache.indexes.items():
         kname = key.name if isinstance(key, core.Attribute) else tuple(a.name for a in key)
@@ -71,6 +83,8 @@ def diff_snapshots(before, after):
                 out.append('%s values dropped' % _name(obj))
             continue
         for an, v in vals.items():
+            if an == '<dbvals>':
+                continue
             if an not in vals2:
                 out.append('%s.%s was loaded, now missing' % (_name(obj), an))
                 continue
@@ -87,10 +101,21 @@ def diff_snapshots(before, after):
                     out.append('%s.%s was fully loaded and changed' % (_name(obj), an))
                 continue
             out.append('%s.%s %r -> %r' % (_name(obj), an, v, v2))
+        db2 = vals2.get('<dbvals>')
         for an in vals2:
-            if an not in vals:
-                # newly present value: fine when it is a plain load (object status unchanged, no write bit)
-                pass
+            if an not in vals and an != '<dbvals>':
+                # newly present value: fine when it is a plain load, i.e. the value came from the database
+                # (Pony records loaded column values in _dbvals_); a value that merely appeared in _vals_
+                # of a stored object is a leftover of the failed call
+                v2 = vals2[an]
+                is_coll = isinstance(v2, tuple) and v2 and v2[0] == 'S'
+                if is_coll:
+                    if v2[2] or v2[3]:
+                        out.append('%s.%s appeared with pending added/removed items' % (_name(obj), an))
+                elif st2 in ('loaded', 'modified', 'inserted', 'updated') and db2 is not None and an not in db2 \
+                        and not _is_pk_attr(obj, an) and not (v2 is None and _no_columns(obj, an)):
+                    out.append('%s.%s was not loaded and now reads %r without having been loaded from the database'
+                               % (_name(obj), an, v2))
     new_ids = set(ao) - set(bo)
     for oid in new_ids:
         obj, st2, wb2, sp2, vals2 = ao[oid]
